@@ -13,7 +13,7 @@ from xdeps.tasks import ExprTask, FunctionTask, LinearKnob
 from xdeps.refs import Ref, ItemRef, AttrRef, BaseRef, is_cythonized
 
 # ---------------------------------------------------------------- fault injection
-FAULT = {"n": None, "kind": "Fault"}
+FAULT = {"n": None, "kind": "Fault", "rn": None, "fired": False}      # n: writes to go before a write raises; rn: reads
 
 
 class Injected:
@@ -42,8 +42,18 @@ def _tick():
     n = FAULT["n"]
     if n is not None:
         if n == 0:
+            FAULT["fired"] = True
             raise fault_class(FAULT["kind"])("injected container write fault")
         FAULT["n"] = n - 1
+
+
+def _rtick():
+    n = FAULT["rn"]
+    if n is not None:
+        if n == 0:
+            FAULT["fired"] = True
+            raise fault_class(FAULT["kind"])("injected container read fault")
+        FAULT["rn"] = n - 1
 
 
 # ---------------------------------------------------------------- keys
@@ -119,11 +129,19 @@ class FDict(dict):
         _tick()
         dict.__setitem__(self, k, v)
 
+    def __getitem__(self, k):
+        _rtick()
+        return dict.__getitem__(self, k)
+
 
 class FList(list):
     def __setitem__(self, k, v):
         _tick()
         list.__setitem__(self, k, v)
+
+    def __getitem__(self, k):
+        _rtick()
+        return list.__getitem__(self, k)
 
 
 class FObj:
@@ -439,7 +457,7 @@ def mkexpr(roots, e):
         return mkref(roots, e[1])
     if k == "bin":
         a, b = mkexpr(roots, e[2]), mkexpr(roots, e[3])
-        return a + b if e[1] == "+" else a - b if e[1] == "-" else a * b
+        return a + b if e[1] == "+" else a - b if e[1] == "-" else a * b if e[1] == "*" else a % b if e[1] == "%" else a // b
     if k in ("callsum", "callsum2"):
         return mkref(roots, e[1])(mkref(roots, e[2]))
     if k == "proj":
@@ -991,6 +1009,8 @@ def fresh_check(m, roots, roots_data, leaves, followups):
 # ---------------------------------------------------------------- running a case
 def run_case(case, opts):
     FAULT["n"] = None
+    FAULT["rn"] = None
+    FAULT["fired"] = False
     SELFDEP.clear()
     m = xd.Manager()
     roots, roots_data = {}, {}
@@ -1116,8 +1136,12 @@ def run_case(case, opts):
             elif kind == "arm":
                 FAULT["n"] = op[1]
                 FAULT["kind"] = op[2] if len(op) > 2 else "Fault"
+            elif kind == "arm_read":
+                FAULT["rn"] = op[1]
+                FAULT["kind"] = op[2] if len(op) > 2 else "Fault"
             elif kind == "disarm":
                 FAULT["n"] = None
+                FAULT["rn"] = None
             else:
                 raise RuntimeError("unknown op " + kind)
         except BaseException as e:
@@ -1132,7 +1156,11 @@ def run_case(case, opts):
             out.extend(dict(stub, err="not-run") for _ in case["ops"][iop + 1:])
             break
         saved = FAULT["n"]
+        saved_r = FAULT["rn"]
         FAULT["n"] = None
+        FAULT["rn"] = None
+        obs["fault_fired"] = FAULT["fired"]
+        FAULT["fired"] = False
         obs["trace"] = list(TRACE)
         if kind != "genfun":
             obs["start_order"] = STARTS[-1] if STARTS and kind in ("set", "inplace") else []
@@ -1161,6 +1189,7 @@ def run_case(case, opts):
                     orc["fun_inconsistent"] = fun_consistency(m, obs["trace"])
         obs["oracle"] = orc
         FAULT["n"] = saved
+        FAULT["rn"] = saved_r
         out.append(obs)
     return out
 
